@@ -17,12 +17,20 @@ def parseFilter (j : Json) : Except String (Option Filter) :=
   | .null => pure none
   | _ => do pure (some { col := ← Driver.getStr j "col", op := ← Driver.getStr j "op", c := ← Driver.getInt j "c", d := ← Driver.getInt j "d" })
 
-/-- SQL WHERE semantics on one row (k never NULL, v nullable): keep iff the predicate is TRUE -/
-def keeps (f : Option Filter) (k : Int) (v : Option Int) : Bool :=
+def wOf (k : Int) : Int := 1000000 + 3 * k
+
+def colIndex (c : String) : Nat := if c == "k" then 0 else if c == "v" then 1 else if c == "w" then 2 else 3
+
+/-- value of column `c` in the row with key `k` (k, w never NULL; v nullable) -/
+def colVal (vals : Array (Option Int)) (k : Nat) (c : String) : Option Int :=
+  if c == "k" then some (k : Int) else if c == "w" then some (wOf k) else vals.getD k none
+
+/-- SQL WHERE semantics on one row: keep iff the predicate is TRUE (comparison with NULL is not TRUE) -/
+def keeps (vals : Array (Option Int)) (f : Option Filter) (k : Nat) : Bool :=
   match f with
   | none => true
   | some f =>
-    let x : Option Int := if f.col == "k" then some k else v
+    let x := colVal vals k f.col
     match f.op, x with
     | "isnull", x => x.isNone
     | "notnull", x => x.isSome
@@ -36,23 +44,49 @@ def keeps (f : Option Filter) (k : Int) (v : Option Int) : Bool :=
     | "between", some x => f.c ≤ x && x ≤ f.d
     | _, _ => false
 
-def jOptInt : Option Int → Json
-  | some v => Json.num (JsonNumber.fromInt v)
-  | none => Json.null
+abbrev Row := List (Option Int)
 
-/-- rows [k, v|null] (v shown only when projected) of the keys `ks` that the filter keeps -/
-def answer (vals : Array (Option Int)) (f : Option Filter) (showV : Bool) (ks : List Nat) : List (Nat × Option Int) :=
-  (ks.filter fun (k : Nat) => keeps f (k : Int) (vals.getD k none)).map fun (k : Nat) => (k, if showV then vals.getD k none else none)
+def optLe : Option Int → Option Int → Bool
+  | none, _ => true
+  | some _, none => false
+  | some a, some b => a ≤ b
+def optLt (a b : Option Int) : Bool := !optLe b a
 
-def rowsJson (l : List (Nat × Option Int)) : Json := Json.arr (l.map fun (k, v) => Json.arr #[Json.num (JsonNumber.fromNat k), jOptInt v]).toArray
+def rowLe : Row → Row → Bool
+  | [], _ => true
+  | _ :: _, [] => false
+  | a :: as, b :: bs => if optLt a b then true else if optLt b a then false else rowLe as bs
 
-def parseRows (j : Json) : Except String (List (Int × Option Int)) := do
+def sortRows (l : List Row) : List Row := l.mergeSort rowLe
+
+/-- π_cols (σ_f rows-with-keys-ks), sorted -/
+def answer (vals : Array (Option Int)) (f : Option Filter) (cols : List String) (ks : List Nat) : List Row :=
+  sortRows ((ks.filter fun k => keeps vals f k).map fun k => cols.map (colVal vals k))
+
+/-- π_cols of ALL rows with keys ks (no filter) -/
+def project (vals : Array (Option Int)) (cols : List String) (ks : List Nat) : List Row :=
+  ks.map fun k => cols.map (colVal vals k)
+
+def parseRows (j : Json) : Except String (List Row) := do
   let a ← j.getArr?
   a.toList.mapM fun r => do
     let p ← r.getArr?
-    let k ← (p.getD 0 Json.null).getInt?
-    let v := match p.getD 1 Json.null with | .null => none | x => x.getInt?.toOption
-    pure (k, v)
+    pure (p.toList.map fun x => match x with | .null => none | y => y.getInt?.toOption)
+
+/-- multiset inclusion of sorted row lists -/
+def subMulti : List Row → List Row → Bool
+  | [], _ => true
+  | _ :: _, [] => false
+  | a :: as, b :: bs => if a == b then subMulti as bs else if rowLe b a then subMulti (a :: as) bs else false
+
+/-- the filter column sits at a different position in the scan's projected schema than in the file:
+    some table column before it is neither projected nor the filter column -/
+def movesFilterCol (cols : List String) (f : Option Filter) : Bool :=
+  match f with
+  | none => false
+  | some f =>
+    let needed := (f.col :: cols).map colIndex
+    (List.range (colIndex f.col)).any fun j => !needed.contains j
 
 def handler : Driver.Handler := fun c i => do
   let tableS ← Driver.getStr c "table"
@@ -91,39 +125,59 @@ def handler : Driver.Handler := fun c i => do
       let st ← Driver.getObj s "stats"
       let raw := (Driver.asNatList (← Driver.getObj s "raw")).toOption
       let answers ← (← Driver.getArr s "answers").toList.mapM fun a => pure (parseRows a).toOption
-      pure ((← Driver.getNat st "bytes", ← Driver.getInt st "rows", ← Driver.getNat st "splits"), raw, ← Driver.getBool s "files_none", answers)
+      let provider ← (← Driver.getArr s "provider").toList.mapM fun a => pure (match a with | .null => none | x => some (parseRows x).toOption)
+      pure ((← Driver.getNat st "bytes", ← Driver.getInt st "rows", ← Driver.getNat st "splits"), raw, ← Driver.getBool s "files_none", answers, provider)
     -- K: every shard returns exactly the model's rows, raw and per query
-    let kShard (m : Nat × Int × Nat × List Nat) (im : (Nat × Int × Nat) × Option (List Nat) × Bool × List (Option (List (Int × Option Int)))) : Bool :=
+    let kShard (m : Nat × Int × Nat × List Nat)
+        (im : (Nat × Int × Nat) × Option (List Nat) × Bool × List (Option (List Row)) × List (Option (Option (List Row)))) : Bool :=
       let (mb, mr, ms, mk) := m
-      let ((ib, ir, is), raw, _, answers) := im
+      let ((ib, ir, is), raw, _, answers, provider) := im
       mb == ib && mr == ir && ms == is && raw == some mk &&
-      answers.length == queries.length &&
-      (queries.zip answers).all fun ((cols, f), a) =>
-        a == some ((answer vals f (cols.contains "v") mk).map fun (k, v) => ((k : Int), v))
+      answers.length == queries.length && provider.length == queries.length &&
+      ((queries.zip answers).all fun ((cols, f), a) => a == some (answer vals f cols mk)) &&
+      ((queries.zip provider).all fun ((cols, f), a) =>
+        match a with
+        | none => true
+        | some a => a == some (answer vals f cols mk))
     let k := mShards.length == impl.length && (mShards.zip impl).all fun (m, im) => kShard m im
     -- O: on the implementation's outputs only — union of the shards = the table (raw) / π σ_φ table (every query)
     let allKeys := List.range total
     let sortNat (l : List Nat) := l.mergeSort (fun a b => a ≤ b)
-    let rawUnion : Option (List Nat) := impl.foldl (fun acc (_, raw, _, _) => match acc, raw with | some a, some r => some (a ++ r) | _, _ => none) (some [])
+    let rawUnion : Option (List Nat) := impl.foldl (fun acc (_, raw, _, _, _) => match acc, raw with | some a, some r => some (a ++ r) | _, _ => none) (some [])
     let oRaw : Option String :=
       match rawUnion with
       | none => some "a shard's raw scan failed"
       | some u => if sortNat u == allKeys then none else some "union of the shards' raw scans is not the table (row lost or duplicated)"
-    let oFiles : Option String := if impl.all (fun (_, _, fn, _) => fn) then none else some "a sharded provider exposes whole files (parquet_files is Some)"
+    let oFiles : Option String := if impl.all (fun (_, _, fn, _, _) => fn) then none else some "a sharded provider exposes whole files (parquet_files is Some)"
     let oCount : Option String := if impl.length == N then none else some "not one shard per node"
     let oQueries : Option String := (List.range queries.length).findSome? fun qi =>
       let (cols, f) := queries.getD qi ([], none)
-      let parts := impl.map fun (_, _, _, answers) => (answers.getD qi none)
+      let parts := impl.map fun (_, _, _, answers, _) => (answers.getD qi none)
       if parts.any (·.isNone) then some s!"query {qi} failed on a shard"
       else
-        let u := (parts.flatMap fun p => p.getD []).mergeSort (fun a b => a.1 ≤ b.1)
-        let expect := (answer vals f (cols.contains "v") allKeys).map fun (k, v) => ((k : Int), v)
-        if u == expect then none else some s!"query {qi}: union of the shard answers differs from the table's answer (row lost, duplicated or wrong)"
-    let o := oCount <|> oFiles <|> oRaw <|> oQueries
+        let u := sortRows (parts.flatMap fun p => p.getD [])
+        if u == answer vals f cols allKeys then none
+        else some s!"query {qi}: union of the shard answers differs from the table's answer (row lost, duplicated or wrong)"
+    -- provider level: the pushed filter is a performance device, so every shard may return a superset of its qualifying rows,
+    -- but the union must contain every qualifying row of the table and nothing that is not a row of the table
+    let oProvider : Option String := (List.range queries.length).findSome? fun qi =>
+      let (cols, f) := queries.getD qi ([], none)
+      let parts := impl.map fun (_, _, _, _, provider) => (provider.getD qi none)
+      if parts.all (·.isNone) then none
+      else if parts.any (fun p => match p with | some none => true | _ => false) then some s!"query {qi}: scan_with_filter failed on a shard"
+      else
+        let u := sortRows (parts.flatMap fun p => match p with | some (some r) => r | _ => [])
+        if !subMulti (answer vals f cols allKeys) u then some s!"query {qi}: scan_with_filter over the shards loses qualifying rows"
+        else if !subMulti u (sortRows (project vals cols allKeys)) then some s!"query {qi}: scan_with_filter over the shards returns rows that are not in the table (or duplicates)"
+        else none
+    let o := oCount <|> oFiles <|> oRaw <|> oQueries <|> oProvider
     let tags := ["shards"] ++ mTags ++ (if files.length ≥ 2 then ["multi-file"] else []) ++
       (if files.any (fun f => (f.footer.getD []).length ≥ 2) then ["multi-row-group"] else []) ++
       (if queries.any (fun (_, f) => f.isSome) then ["filter"] else []) ++ (if nodes == 0 then ["nodes0"] else []) ++
-      (if queries.any (fun (_, f) => match f with | some f => f.col == "v" | none => false) then ["filter-nullable"] else [])
+      (if queries.any (fun (_, f) => match f with | some f => f.col == "v" | none => false) then ["filter-nullable"] else []) ++
+      (if queries.any (fun (cols, f) => movesFilterCol cols f) then ["proj:nonprefix+filter"] else []) ++
+      (if queries.any (fun (cols, _) => (cols.map colIndex).mergeSort (fun a b => a ≤ b) != cols.map colIndex) then ["proj:permuted"] else []) ++
+      (if queries.any (fun (cols, f) => movesFilterCol cols f && (cols.map colIndex).mergeSort (fun a b => a ≤ b) == cols.map colIndex) then ["provider:nonprefix+filter"] else [])
     pure { model := Json.arr (mShards.map fun (b, r, s, ks) => Json.mkObj [("bytes", b), ("rows", Json.num (JsonNumber.fromInt r)), ("splits", s), ("keys", Driver.jNatList ks)]).toArray,
            k := k, oracle := o, nt := N ≥ 2 && total ≥ 2, tags := tags }
 
